@@ -349,6 +349,7 @@ func genAlloc(out string) error {
 			}
 		}
 	}
+	facts = measuredRows(facts)
 	sort.SliceStable(facts, func(i, j int) bool {
 		a, b := facts[i], facts[j]
 		return a.Pkg+"."+a.Type+"."+a.Method+"#"+a.Guard+a.Pos < b.Pkg+"."+b.Type+"."+b.Method+"#"+b.Guard+b.Pos
